@@ -141,48 +141,55 @@ fn c09_field_vrate() {
     vassert!(got == want, "C09: vertical rate is not +-64*(field-1) / not blank for field 0");
 }
 
-// @harness props=C09,C11,C19 tier=quick cap=1500 needs=kfmod
-// row step: any DF17 TC19 subtype 1/2 squitter on an arbitrary row, -U/-R symbolic: the row's
-// ground speed, track and vertical rate are the values of this frame
-#[cfg_attr(kani, kani::proof)]
-#[cfg_attr(kani, kani::unwind(33))]
-#[cfg_attr(kani, kani::stub(chrono::Utc::now, crate::verif::rt::stub_now))]
-#[cfg_attr(kani, kani::stub(crate::decoder::get_downlink_format, super::rows::stub_get_df))]
-#[cfg_attr(kani, kani::stub(crate::decoder::adsb::icao::get_icao, super::rows::stub_get_icao))]
-#[cfg_attr(kani, kani::stub(crate::decoder::utils::get_message_type, super::rows::stub_get_tc))]
-#[cfg_attr(kani, kani::stub(f64::atan2, stub_atan2))]
-#[cfg_attr(kani, kani::stub(f64::sqrt, stub_sqrt))]
-#[cfg_attr(kani, kani::stub(f64::powi, stub_powi))]
-#[cfg_attr(kani, kani::stub(crate::decoder::adsb::ais::ais, super::rows::stub_ais))]
-#[cfg_attr(verif_replay, test)]
-fn c09_row_tc19() {
-    let m = frame28();
-    pin_df(&m, 17);
-    pin_tc(&m, 19);
-    let st = bits(&m, 38, 40) as u32;
-    assume(st == 1 || st == 2);
-    let use_update = any_bool();
-    let relaxed = any_bool();
-    draw_libm();
-    let mut p = any_row();
-    let Some((df, icao)) = accepted(&m) else { return };
-    p.icao = icao;
-    let before = clone_row(&p);
-    apply(&mut p, &m, df, use_update, relaxed);
-    let (wt, wg) = expect_velocity(&m, st == 2);
-    let wv = tc19_vrate(&m);
-    vcover!(use_update && st == 1 && wt.is_some(), "-U, subsonic");
-    vcover!(!use_update && st == 2 && wt.is_some() && before.grspeed.is_none(), "default path, supersonic, first velocity");
-    vcover!(!use_update && wv == Some(-64) && before.vrate == Some(640), "default path, rate change");
-    vcover!(!use_update && wv.is_none() && before.vrate.is_some(), "default path, rate not available on a row that has one");
-    vcover!(wv == Some(0) && before.vrate == Some(1280), "levelling off");
-    // C09: "a component or rate field of 0 ... yields no value for that quantity. The same values result on
-    // the first and on later frames": a later frame must blank exactly as the creating frame does
-    vassert!(p.track == wt, "C09: row track is not the value (or blank for 'no information') of the velocity squitter just applied");
-    vassert!(gs_ok(wg, p.grspeed), "C09: row ground speed is not the value (or blank for 'no information') of the velocity squitter just applied");
-    vassert!(p.vrate == wv, "C09: row vertical rate is not the value (or blank for 'no information') of the velocity squitter just applied");
-    assert_unchanged_except(&before, &p, F_VRATE | F_VRATE_SRC | F_ALT_GNSS | F_TRACK | F_GS | F_TRACK_SRC | F_BOOK | F_CAP0);
+macro_rules! row_tc19 {
+    ($name:ident, $upd:expr) => {
+        #[cfg_attr(kani, kani::proof)]
+        #[cfg_attr(kani, kani::unwind(33))]
+        #[cfg_attr(kani, kani::stub(chrono::Utc::now, crate::verif::rt::stub_now))]
+        #[cfg_attr(kani, kani::stub(crate::decoder::get_downlink_format, super::rows::stub_get_df))]
+        #[cfg_attr(kani, kani::stub(crate::decoder::adsb::icao::get_icao, super::rows::stub_get_icao))]
+        #[cfg_attr(kani, kani::stub(crate::decoder::utils::get_message_type, super::rows::stub_get_tc))]
+        #[cfg_attr(kani, kani::stub(crate::decoder::adsb::ais::ais, super::rows::stub_ais))]
+        #[cfg_attr(kani, kani::stub(f64::atan2, stub_atan2))]
+        #[cfg_attr(kani, kani::stub(f64::sqrt, stub_sqrt))]
+        #[cfg_attr(kani, kani::stub(f64::powi, stub_powi))]
+        #[cfg_attr(verif_replay, test)]
+        fn $name() {
+            let m = frame28();
+            pin_df(&m, 17);
+            pin_tc(&m, 19);
+            let st = bits(&m, 38, 40) as u32;
+            assume(st == 1 || st == 2);
+            let relaxed = any_bool();
+            draw_libm();
+            let mut p = any_row();
+            let Some((df, icao)) = accepted(&m) else { return };
+            p.icao = icao;
+            let before = clone_row(&p);
+            apply(&mut p, &m, df, $upd, relaxed);
+            let (wt, wg) = expect_velocity(&m, st == 2);
+            let wv = tc19_vrate(&m);
+            vcover!(st == 1 && wt.is_some(), "subsonic");
+            vcover!(st == 2 && wt.is_some() && before.grspeed.is_none(), "supersonic, first velocity");
+            vcover!(wv == Some(-64) && before.vrate == Some(640), "rate change");
+            vcover!(wv.is_none() && before.vrate.is_some(), "rate not available on a row that has one");
+            vcover!(wv == Some(0) && before.vrate == Some(1280), "levelling off");
+            // C09: "a component or rate field of 0 ... yields no value for that quantity. The same values result on
+            // the first and on later frames": a later frame must blank exactly as the creating frame does
+            vassert!(p.track == wt, "C09: row track is not the value (or blank for 'no information') of the velocity squitter just applied");
+            vassert!(gs_ok(wg, p.grspeed), "C09: row ground speed is not the value (or blank for 'no information') of the velocity squitter just applied");
+            vassert!(p.vrate == wv, "C09: row vertical rate is not the value (or blank for 'no information') of the velocity squitter just applied");
+            assert_unchanged_except(&before, &p, F_VRATE | F_VRATE_SRC | F_ALT_GNSS | F_TRACK | F_GS | F_TRACK_SRC | F_BOOK | F_CAP0);
 }
+    };
+}
+// @harness name=c09_row_tc19_default props=C09,C11,C19:thorough tier=quick cap=1500 needs=kfmod
+// row step, DEFAULT path: any DF17 TC19 subtype 1/2 squitter on an arbitrary row, -R symbolic: the row's
+// ground speed, track and vertical rate are the values of this frame (blank for 'no information')
+row_tc19!(c09_row_tc19_default, false);
+// @harness name=c09_row_tc19_update props=C09,C11:thorough,C19:thorough tier=quick cap=1500 needs=kfmod
+// row step, -U path: same
+row_tc19!(c09_row_tc19_update, true);
 
 // @harness props=C09 tier=quick cap=1500 needs=kfmod
 // the TC19 squitter that creates a row: same values
